@@ -49,6 +49,13 @@ def random_history(ctx):
         # TCPCubic starts in slow start below 65535: get it into congestion avoidance through a loss first
         ev += [{"op": "A", "dt": 1, "k": 1, "rtt": den // 2, "late": 0} for _ in range(rng.randint(0, 4))]
         ev += [{"op": "D", "dt": 0, "late": 0} for _ in range(rng.randint(3, 5))]
+    if cubic and rng.random() < 0.6:
+        # a long epoch: large RTT samples first (so that the timers are long), a loss, then ACKs seconds apart
+        ev = [{"op": "A", "dt": 1, "k": 1, "rtt": rng.choice([10, 20, 30]) * den, "late": 0} for _ in range(rng.randint(1, 3))]
+        ev += [{"op": "D", "dt": 0, "late": 0} for _ in range(rng.randint(3, 4))]
+        while len(ev) < n + 4:
+            ev.append({"op": "A", "dt": rng.choice([0, 1, den // 2, den, 2 * den, 3 * den, 5 * den]), "k": rng.choice([1, 1, 2]),
+                       "rtt": rng.choice([-1, den // 2, den, 10 * den, 20 * den]), "late": rng.choice([0, 0, 1])})
     while len(ev) < n:
         r = rng.random()
         small = rng.choice([0, 0, 1, 1, 2, den // 4, den // 2])
@@ -132,3 +139,118 @@ def signature(tr, pos):
     else:
         what = {"S": "send", "T": "timeout", "Q": "end of script"}.get(at["e"], at["e"])
     return what, at
+
+
+ACTS = ("DoSend", "EnvNewAck", "EnvDupAck", "EnvTimeout")
+
+
+def mc_jobs(ctx):
+    def cfg(name):
+        return open(core.tlc.SPEC + "/tcp/TcpSenderMC_%s.cfg" % name).read()
+
+    def sub(text, **kv):
+        for k, v in kv.items():
+            text, n = re.subn(r"\b%s = \w+" % k, "%s = %s" % (k, v), text)
+            if n != 1:
+                raise core.Machinery("constant %s not found in a TcpSenderMC configuration" % k)
+        return text
+
+    if ctx.quick:
+        return [("reno", cfg("reno"), ACTS, 8), ("lazy", cfg("lazy"), ACTS, 3), ("cubic", cfg("cubic"), ACTS + ("EnvTick",), 3)]
+    noemit = cfg("reno").replace("CONSTRAINT Emit\n", "VIEW NoHist\n")
+    return [("reno", cfg("reno"), ACTS, 4),
+            ("reno 7 events", sub(noemit, MaxEv=7, MaxSeg=6), ACTS, 6),
+            ("reno 3 samples", sub(noemit, MaxEv=6, Tier='"renoT"'), ACTS, 4),
+            ("lazy 5 events", sub(cfg("lazy"), MaxEv=5), ACTS, 4),
+            ("cubic 6 events", sub(cfg("cubic"), MaxEv=6), ACTS + ("EnvTick",), 4)]
+
+
+def mc_all(ctx):
+    """The exhaustive runs are independent: side by side, each accounted in a private context (as in c11)."""
+    from concurrent.futures import ThreadPoolExecutor
+    jobs = mc_jobs(ctx)
+
+    def one(job):
+        label, cfg, acts, workers = job
+        s = core.Ctx(ctx.pid, ctx.tier, ctx.seed)
+        r = s.mc("TcpSenderMC", cfg, "tcp", required_actions=acts, label="TcpSenderMC/" + label, timeout=3000, workers=workers)
+        em = r.emitted()
+        r.out = ""
+        r.prints = []
+        return s, em
+
+    with ThreadPoolExecutor(max_workers=len(jobs)) as ex:
+        done = list(ex.map(one, jobs))
+    emitted = []
+    for s, em in done:
+        ctx.states += s.states
+        ctx.transitions += s.transitions
+        ctx.exhaustive = ctx.exhaustive and s.exhaustive
+        ctx.notes += s.notes
+        ctx.mc_runs += s.mc_runs
+        for a, (d, t) in s.actions.items():
+            od, ot = ctx.actions.get(a, (0, 0))
+            ctx.actions[a] = (od + d, ot + t)
+        emitted += em
+    return emitted
+
+
+def run(ctx, replay=None):
+    if replay:
+        obj = json.load(open(replay))
+        scs = [obj["scenario"]]
+    else:
+        seen = {}
+        for h in mc_all(ctx):
+            seen.setdefault(json.dumps(h, sort_keys=True), h)
+        emitted = [seen[k] for k in sorted(seen)]
+        if not emitted:
+            raise core.Machinery("TcpSenderMC emitted no history")
+        ctx.extra["histories_emitted_by_tlc"] = len(emitted)
+        ctx.rng.shuffle(emitted)
+        n_emit = 700 if ctx.quick else 20000
+        n_rand = 1000 if ctx.quick else 30000
+        scs = [from_history(ctx, h) for h in emitted[:n_emit]]
+        scs += [random_history(ctx) for _ in range(n_rand)]
+    traces = ctx.drive("tcpsender", scs, procs=12)
+    stuck = ctx.validate("TcpSenderTrace", "TcpSenderTrace.cfg", "tcp", traces, shard=max(60, len(traces) // 16 + 1))
+    distinct = set()
+    for i, (sc, tr) in enumerate(zip(scs, traces)):
+        key = json.dumps(sc, sort_keys=True)
+        if key in distinct:
+            continue
+        distinct.add(key)
+        if i in stuck:
+            what, at = signature(tr, stuck[i])
+            ctx.violation("tcpsender_trace", sc, tr, "trace rejected at event %d (%s): %s" % (stuck[i], what, json.dumps(at)),
+                          sig="%s: no spec step matches %s" % (sc["cc"], what))
+        else:
+            classify(ctx, sc, tr)
+            if i % 499 == 0:
+                ctx.sample({"scenario": sc, "trace_events": tr["ev"][:10]})
+    ctx.extra["distinct_scenarios"] = len(distinct)
+    if not replay and not ctx.violations:
+        for k in ("third_duplicate", "further_duplicate", "new_ack_ends_fast_recovery", "new_ack_after_one_or_two_duplicates",
+                  "reno_ca_ack", "slow_start_ack", "multi_segment_ack", "timeout", "timeout_in_fast_recovery",
+                  "send_limited_by_buffered_data", "cubic_ca_ack"):
+            if not ctx.nontrivial.get(k):
+                raise core.Machinery("vacuity: no replayed scenario of kind %s" % k)
+    return ctx.finish(RULE, assumptions=[
+        "MSS = 512 (fixed in TCPPacketGenerator); instants, delays and RTT samples on a 1/8 or 1/64 s lattice; initial cwnd >= MSS",
+        "numbers are logged as fixed point (2^-10 byte, 2^-20 s) with an exactness flag and every step is validated from the "
+        "logged pre-state: equal where the arithmetic is exact, otherwise within the enclosure computed by interval arithmetic "
+        "(at most 5 units = 0.005 byte for a Reno congestion-avoidance step); a comparison the rounding leaves undecided admits "
+        "both branches; float rounding in the last bit is not decided",
+        "WHEN a retransmission timer fires, and for which sent segment, is not part of C17 (C16 / C19): a timeout is accepted "
+        "for any segment sent so far and only its effect (cwnd = MSS, that segment retransmitted, RTO doubled) is checked",
+        "left open because the property is silent: whether a timeout also lowers ssthresh / clears the duplicate count, whether "
+        "the 4th, 5th, ... duplicate retransmits the missing segment again, how soon an open window is used (safety only)",
+        "duplicate ACKs are delivered only while data is outstanding; no ACK below last_ack or above next_seq is delivered",
+        "CUBIC: the epoch state (W_last_max, epoch_start, origin_point, d_min, W_tcp, K, ack_cnt, cwnd_cnt, cnt) is public and "
+        "bound to the published algorithm (C = 0.4, beta = 0.2) as the class applies it to cwnd in bytes; the cube is enclosed "
+        "from 2^-8 s roundings, cnt is compared in 1/16 capped at 2^20; the branch that needs a cube root (cwnd < W_last_max) "
+        "is unreachable from the defaults because no rule of the property sets W_last_max"])
+
+
+if __name__ == "__main__":
+    core.main(run, "C17")
